@@ -638,7 +638,7 @@ def evidence_meta(tier):
                           'display_rendered', 'B_compiled_iteration_executed',
                           'B_requested_predicate_is_also_an_intermediate', 'B_together_vs_alone_compared',
                           'B_grounded_intermediates', 'P_requested_predicate_is_also_an_intermediate',
-                          'P_external_data_tables', 'P_iteration_in_assembled_plan', 'P_several_predicates_requested'],
+                          'P_external_data_tables', 'P_tables_read_but_not_produced', 'P_iteration_in_assembled_plan', 'P_several_predicates_requested'],
       'assumptions': [
           'plans are well-formed: acyclic, disjoint groups, in-group requirements point backwards in the declared order, no outside action between two members of a group',
           'a stop signal is "raised" when the file exists with non-empty content at the instant a member checks it; once seen it stays seen (the code says so explicitly)',
